@@ -419,7 +419,111 @@ func TestVerifC01(t *testing.T) {
 			s.Sample(map[string]any{"kind": kind, "series": nSeries, "points": n, "first_row_tags": model[uids[0]].tags, "first_row_fields": model[uids[0]].fields})
 		}
 	}
+	indexedMeasureTags(t, s, sv)
 	s.Done()
+}
+
+// indexedMeasureTags: tags of a measure that carry an index rule are not stored in the column files but
+// in the series index; they must read back like any other tag. Tag values are constant per series, so the
+// series-level storage is unambiguous.
+func indexedMeasureTags(t *testing.T, s *verifh.Sink, sv *srv) {
+	const g, name = "c01ix", "mix"
+	if err := sv.group(g, commonv1.Catalog_CATALOG_MEASURE, 1, commonv1.IntervalRule_UNIT_DAY, 1, 3650); err != nil {
+		t.Fatal(err)
+	}
+	tags := []*databasev1.TagSpec{
+		{Name: "id", Type: databasev1.TagType_TAG_TYPE_STRING},
+		{Name: "s", Type: databasev1.TagType_TAG_TYPE_STRING},
+		{Name: "i", Type: databasev1.TagType_TAG_TYPE_INT},
+		{Name: "sa", Type: databasev1.TagType_TAG_TYPE_STRING_ARRAY},
+		{Name: "ia", Type: databasev1.TagType_TAG_TYPE_INT_ARRAY},
+	}
+	if err := sv.measure(&databasev1.Measure{Metadata: &commonv1.Metadata{Name: name, Group: g},
+		TagFamilies: []*databasev1.TagFamilySpec{{Name: "default", Tags: tags}}, Fields: []*databasev1.FieldSpec{fieldSpec("v", databasev1.FieldType_FIELD_TYPE_INT)},
+		Entity: &databasev1.Entity{TagNames: []string{"id"}}}); err != nil {
+		t.Fatal(err)
+	}
+	var rules []string
+	for _, tg := range []string{"s", "i", "sa", "ia"} {
+		if err := sv.indexRule(g, "mix_"+tg, []string{tg}, databasev1.IndexRule_TYPE_INVERTED); err != nil {
+			t.Fatal(err)
+		}
+		rules = append(rules, "mix_"+tg)
+	}
+	if err := sv.bind(g, "mix_b", rules, commonv1.Catalog_CATALOG_MEASURE, name); err != nil {
+		t.Fatal(err)
+	}
+	time.Sleep(8 * time.Second) // index rules reach the write path asynchronously
+	base := time.Date(2024, 5, 10, 0, 0, 0, 0, time.UTC)
+	n := verifh.Pick(24, 200)
+	want := map[string][]string{}
+	var pts []*measurev1.DataPointValue
+	for k := 0; k < n; k++ {
+		r := verifh.Rand("c01ix", k)
+		id := fmt.Sprintf("x%03d", k)
+		tv := []*modelv1.TagValue{tStr(id), genTag(r, databasev1.TagType_TAG_TYPE_STRING), genTag(r, databasev1.TagType_TAG_TYPE_INT),
+			genTag(r, databasev1.TagType_TAG_TYPE_STRING_ARRAY), genTag(r, databasev1.TagType_TAG_TYPE_INT_ARRAY)}
+		var cs []string
+		for _, v := range tv {
+			cs = append(cs, canonTag(v))
+		}
+		want[id] = cs
+		for j := 0; j < 2; j++ {
+			pts = append(pts, &measurev1.DataPointValue{Timestamp: timestamppb.New(base.Add(time.Duration(k*2+j) * time.Second)),
+				TagFamilies: []*modelv1.TagFamilyForWrite{{Tags: tv}}, Fields: []*modelv1.FieldValue{fInt(int64(k))}})
+		}
+	}
+	if err := sv.waitWritableMeasure(g, name, func() *measurev1.DataPointValue {
+		return &measurev1.DataPointValue{Timestamp: timestamppb.New(base.Add(-time.Hour)), TagFamilies: []*modelv1.TagFamilyForWrite{{Tags: []*modelv1.TagValue{tStr("sentinel"), tStr("z"), tInt(0), tStrArr([]string{"z"}), tIntArr([]int64{0})}}}, Fields: []*modelv1.FieldValue{fInt(0)}}
+	}); err != nil {
+		t.Fatal(err)
+	}
+	acks, err := sv.writeMeasure(g, name, pts)
+	if err != nil {
+		t.Fatal(err)
+	}
+	time.Sleep(1500 * time.Millisecond)
+	for ti, tg := range []string{"s", "i", "sa", "ia"} {
+		resp, qerr := sv.queryMeasure(&measurev1.QueryRequest{Groups: []string{g}, Name: name, TimeRange: tsRange(base, base.Add(time.Hour)), Limit: 100000,
+			TagProjection:   &modelv1.TagProjection{TagFamilies: []*modelv1.TagProjection_TagFamily{{Name: "default", Tags: []string{"id", tg}}}},
+			FieldProjection: &measurev1.QueryRequest_FieldProjection{Names: []string{"v"}}})
+		s.Count("c01.measure.indexed_tag_projections", 1)
+		if qerr != nil {
+			s.Violation("c01:measure:indexed-tag:"+tg+":query-fails", map[string]any{"tag": tg, "type": tags[ti+1].Type.String(), "err": clipS(qerr.Error(), 300)})
+			continue
+		}
+		seen := 0
+		for _, dp := range resp.DataPoints {
+			var id, got string
+			for _, tf := range dp.TagFamilies {
+				for _, x := range tf.Tags {
+					if x.Key == "id" {
+						id = x.Value.GetStr().GetValue()
+					} else if x.Key == tg {
+						got = canonTag(x.Value)
+					}
+				}
+			}
+			w, ok := want[id]
+			if !ok {
+				continue
+			}
+			seen++
+			if got != w[ti+1] {
+				s.Violation("c01:measure:indexed-tag:"+tg+":"+tagClass(w[ti+1], got), map[string]any{"tag": tg, "type": tags[ti+1].Type.String(), "series": id, "wrote": clipS(w[ti+1], 200), "read": clipS(got, 200)})
+			}
+		}
+		nAck := 0
+		for _, a := range acks {
+			if a {
+				nAck++
+			}
+		}
+		if seen != nAck {
+			s.Violation("c01:measure:indexed-tag:"+tg+":row-count", map[string]any{"acknowledged": nAck, "returned": seen})
+		}
+		s.Case("indexed-tag/"+tg, seen > 0)
+	}
 }
 
 // tagClass names the kind of discrepancy (used in violation keys so that known findings stay specific).
